@@ -156,6 +156,8 @@ def kitti_poses(case):
 
 
 def n_poses(case):
+    if case.get("kind") == "clibag":
+        return sum(n_poses(t[2]) for t in case["topics"])
     if "gen" in case:
         return case["gen"]["n"]
     d = case["data"]
@@ -460,7 +462,86 @@ def impl_bag(case):
             "stamp_diff": worst, "sec_nsec": raw_stamps, "reread": [hexf(v) for v in back.timestamps]}
 
 
+def _stamp_slack_diff(want, got, what):
+    """first stamp of got that is further than one nanosecond (+ the spacing of doubles there) from want, or None"""
+    for a, b in zip(want, got):
+        err = abs(Fraction(float(a)) - Fraction(float(b)))
+        slack = Fraction(1, 10 ** 9) * (1 + Fraction(1, 10 ** 6)) + Fraction(float(np.spacing(a)))
+        if err > slack:
+            return "%s: stamp %s (%r) re-read as %s (%r)" % (what, hexf(a), float(a), hexf(b), float(b))
+    return None
+
+
+def impl_clibag(case):
+    """end to end: a ROS1 bag with one PoseStamped topic per entry of case['topics'] (each in its own frame) is written,
+    'evo_traj bag in.bag <est topics> [--ref <topic>] --save_as_bag' is run (main_traj_parser + main_traj.run, scratch working
+    directory), and the exported bag is re-read topic by topic: poses bit for bit, stamps within 1 ns, the topic's own frame id"""
+    from evo.tools import file_interface as fi
+    from evo.core.trajectory import PoseTrajectory3D
+    from rosbags.rosbag1 import Reader, Writer
+    from evo import main_traj, main_traj_parser
+    d = tempfile.mkdtemp(prefix="c06_cli_")
+    cwd = os.getcwd()
+    written = {}
+    try:
+        os.chdir(d)
+        w = Writer("in.bag")
+        w.open()
+        try:
+            for topic, frame, t in case["topics"]:
+                st, xyz, q = tum_arrays(t)
+                written[topic] = (st, xyz, q, frame)
+                fi.write_bag_trajectory(w, PoseTrajectory3D(xyz.copy(), q.copy(), st.copy()), topic, frame)
+        finally:
+            w.close()
+        # the trajectories evo_traj is going to load and export (the input bag as evo reads it)
+        loaded = {}
+        with Reader("in.bag") as rd:
+            for topic in written:
+                loaded[topic] = fi.read_bag_trajectory(rd, topic)
+        argv = ["bag", "in.bag"] + (["--all_topics"] if case.get("all_topics") else list(case["est"]))
+        if case.get("ref"):
+            argv += ["--ref", case["ref"]]
+        argv += ["--save_as_bag", "--silent"] + list(case.get("extra", []))
+        try:
+            main_traj.run(main_traj_parser.parser().parse_args(argv))
+        except SystemExit as e:
+            return {"error": "evo_traj exited: SystemExit(%r)" % (e.code,), "argv": argv}
+        new = sorted(f for f in os.listdir(d) if f.endswith(".bag") and f != "in.bag")
+        if len(new) != 1:
+            return {"error": "expected one exported bag, found %r" % (new,), "argv": argv}
+        exported = list(case["est"]) + ([case["ref"]] if case.get("ref") else [])
+        per_topic = []
+        with Reader(new[0]) as rd:
+            have = sorted({c.topic for c in rd.connections})
+            for topic in exported:
+                st, xyz, q, frame = written[topic]
+                if topic not in have:
+                    per_topic.append({"topic": topic, "missing": True, "frame_written": frame})
+                    continue
+                back = fi.read_bag_trajectory(rd, topic)
+                n_ok = int(back.num_poses) == len(st)
+                diff = sdiff = None
+                if n_ok:
+                    diff = _first_diff(["positions_xyz", "orientations_quat_wxyz"], [xyz, q],
+                                       [back.positions_xyz, back.orientations_quat_wxyz])
+                    sdiff = (_stamp_slack_diff(loaded[topic].timestamps, back.timestamps, "exported trajectory")
+                             or _stamp_slack_diff(st, loaded[topic].timestamps, "input bag"))
+                per_topic.append({"topic": topic, "missing": False, "n_written": len(st), "n_read": int(back.num_poses),
+                                  "is_ref": topic == case.get("ref"),
+                                  "frame_written": frame, "frame_loaded": loaded[topic].meta.get("frame_id"),
+                                  "frame_read": back.meta.get("frame_id"), "diff": diff, "stamp_diff": sdiff})
+        return {"argv": argv, "topics_in_export": have, "per_topic": per_topic}
+    except Exception as e:  # noqa
+        return {"error": type(e).__name__ + ": " + str(e)[:200]}
+    finally:
+        os.chdir(cwd)
+        shutil.rmtree(d, ignore_errors=True)
+
+
 def impl(case):
+    if case["kind"] == "clibag":
+        return impl_clibag(case)
     return {"tum": impl_tum, "kitti": impl_kitti, "res": impl_res, "df": impl_df, "bag": impl_bag}[case["kind"]](case)
 
 
@@ -501,6 +582,8 @@ class Names:
 
 def expr(case, out):
     k = case["kind"]
+    if k == "clibag":      # end-to-end export through evo_traj: judged on the implementation only
+        return "(0%nat, 0%nat)"
     small = n_poses(case) <= SMALL if k != "res" else True
     if "error" in out or not small or (k in ("tum", "kitti") and "tokens" not in out):
         return "(0%nat, 0%nat)"
@@ -580,6 +663,28 @@ def _judge(case, val, out):
     k = case["kind"]
     if "error" in out:
         return {"kind": "spec-violation", "failing_input": True, "detail": "writer/reader failed on a valid input: " + out["error"]}
+    if k == "clibag":
+        cmd = "evo_traj " + " ".join(out["argv"])
+        for t in out["per_topic"]:
+            role = "reference" if t.get("is_ref") else "estimate"
+            if t["missing"]:
+                return {"kind": "spec-violation", "failing_input": True,
+                        "detail": "%s: topic %r is not in the exported bag (topics %r)" % (cmd, t["topic"], out["topics_in_export"])}
+            if t["n_read"] != t["n_written"]:
+                return {"kind": "spec-violation", "failing_input": True,
+                        "detail": "%s: %s %r has %d poses in the input bag, %d in the exported bag" %
+                        (cmd, role, t["topic"], t["n_written"], t["n_read"])}
+            if t["diff"]:
+                return {"kind": "spec-violation", "failing_input": True,
+                        "detail": "%s: %s %r not bit-identical in the exported bag: %s" % (cmd, role, t["topic"], t["diff"])}
+            if t["stamp_diff"]:
+                return {"kind": "spec-violation", "failing_input": True,
+                        "detail": "%s: %s %r time stamp off by more than 1 ns: %s" % (cmd, role, t["topic"], t["stamp_diff"])}
+            if t["frame_read"] != t["frame_written"]:
+                return {"kind": "spec-violation", "failing_input": True,
+                        "detail": "%s: %s %r lives in frame %r in the input bag (loaded with frame_id %r) but is exported with "
+                                  "frame id %r" % (cmd, role, t["topic"], t["frame_written"], t["frame_loaded"], t["frame_read"])}
+        return None
     # ---- the property itself, on the implementation
     if out.get("input_unchanged") is False:
         return {"kind": "spec-violation", "failing_input": True, "detail": "the object handed to the writer was modified"}
@@ -691,6 +796,22 @@ def nontrivial(case, val, out):
 
 
 def shrink(case):
+    if case.get("kind") == "clibag":
+        for i, name in enumerate(case["est"] if len(case["est"]) > 1 else []):   # fewer estimate topics (evo_traj needs one)
+            c = copy.deepcopy(case)
+            del c["est"][i]
+            c["topics"] = [t for t in c["topics"] if t[0] != name]
+            yield c
+        if case.get("extra"):
+            c = copy.deepcopy(case)
+            c["extra"] = []
+            yield c
+        for i, t in enumerate(case["topics"]):          # fewer poses
+            if "gen" in t[2] and t[2]["gen"]["n"] > 1:
+                c = copy.deepcopy(case)
+                c["topics"][i][2]["gen"]["n"] = max(1, t[2]["gen"]["n"] // 2)
+                yield c
+        return
     if case.get("prior") is not None:
         c = copy.deepcopy(case)
         del c["prior"]
@@ -776,7 +897,33 @@ def corpus():
     cs.append({"kind": "res", "variant": "str", "load_trajectories": True, "data": {"info": {}, "stats": [], "arrays": [], "trajs": []}})
     cs.extend(res_order_cases())
     cs.extend(overwrite_cases())
+    cs.extend(clibag_cases())
     return cs
+
+
+def _clibag(topics, est, ref, extra=(), all_topics=False):
+    """est: the estimate topics named on the command line (all_topics: --all_topics instead; est then lists every other topic)"""
+    return {"kind": "clibag", "variant": "evo_traj", "topics": [[t, f, {"gen": {"seed": sd, "n": n, "style": sty}}]
+                                                                 for t, f, sd, n, sty in topics],
+            "est": list(est), "ref": ref, "extra": list(extra), "all_topics": bool(all_topics)}
+
+
+def clibag_cases():
+    """evo_traj bag <in.bag> <topics> [--ref <topic>] --save_as_bag: every exported topic (estimates AND the reference) must
+    carry its own poses, stamps and its own frame id - the topics of the input bag live in different frames"""
+    return [
+        _clibag([("/est", "odom", 11, 4, "epoch"), ("/ref", "world", 12, 5, "epoch")], ["/est"], "/ref"),
+        _clibag([("/est", "odom", 13, 3, "small"), ("/ref", "", 14, 3, "small")], ["/est"], "/ref"),
+        _clibag([("/est", "", 15, 2, "epoch"), ("/ref", "map", 16, 6, "epoch")], ["/est"], "/ref"),
+        _clibag([("/a", "map", 17, 3, "epoch"), ("/b/pose", "base_link", 18, 2, "small"), ("/gt", "world/ü", 19, 4, "epoch")],
+                ["/a", "/b/pose"], "/gt", ["--no_warnings"]),
+        _clibag([("/gt", "world", 20, 4, "epoch"), ("/a", "odom", 21, 3, "epoch"), ("/b", "/robot1/odom", 22, 5, "epoch")],
+                ["/b", "/a"], "/gt"),
+        _clibag([("/a", "odom", 23, 3, "epoch"), ("/b", "map", 24, 4, "small")], ["/a", "/b"], None),
+        _clibag([("/ref", "world", 25, 3, "epoch"), ("/z", "odom", 28, 2, "epoch"), ("/y", "map", 29, 3, "small")], ["/y", "/z"], "/ref",
+                all_topics=True),
+        _clibag([("/est", "world", 26, 1, "epoch"), ("/ref", "world", 27, 1, "epoch")], ["/est"], "/ref"),
+    ]
 
 
 def overwrite_cases():
@@ -870,6 +1017,20 @@ def random_cases(ctx):
         n = int(rng.integers(1, 15))
         cs.append({"kind": "bag", "variant": "str", "frame_id": ["map", "", "odom/ü", "/map", "/robot1/odom"][i % 5],
                    "gen": {"seed": int(rng.integers(0, 2 ** 31)), "n": n, "style": ["epoch", "small"][i % 2]}})
+    frames = ["map", "", "odom", "world", "/map", "/robot1/odom", "base_link", "odom/ü", "ENU"]
+    for i in range(ctx.n(14, 120)):   # evo_traj bag ... --save_as_bag end to end: topics in different frames
+        k = int(rng.integers(1, 4)) if i % 5 else 1
+        has_ref = bool(i % 6 != 5)
+        names = ["/t%d" % j if j % 2 else "/ns%d/pose" % j for j in range(k)] + (["/ref"] if has_ref else [])
+        fr = [str(x) for x in rng.choice(frames, len(names), replace=False)]
+        topics = [(nm, f, int(rng.integers(0, 2 ** 31)), int(rng.integers(1, 9)), ["epoch", "small"][int(rng.integers(0, 2))])
+                  for nm, f in zip(names, fr)]
+        est = names[:k]
+        if k > 1 and rng.random() < 0.5:
+            est = est[::-1]
+        order = list(range(len(topics)))
+        rng.shuffle(order)                       # order of the topics inside the input bag
+        cs.append(_clibag([topics[j] for j in order], est, "/ref" if has_ref else None, all_topics=bool(i % 4 == 3)))
     for i in range(ctx.n(60, 400)):
         ks = ["rmse", "mean", "median", "std", "min", "max", "sse", "μ", "a.b"]
         nk = int(rng.integers(0, 6))
@@ -1007,7 +1168,7 @@ def run(ctx, replay=None, proofs_ok=True):
     cov = {"evaluations": stats["evaluations"], "distinct_nontrivial": stats["distinct_nontrivial"],
            "rule": "corpus (EuRoC-like epoch stamps with ns fractions, 1e-300/1e300/5e-324/-0.0, unicode info, dotted and unicode "
                    "names, empty result, result archives with two or three embedded trajectories / arrays of different serialised "
-                   "lengths in both orders incl. equal pose counts that differ only in minus signs; TUM/KITTI save A - load - save a different B to the same path - load sequences in one process) + random TUM / KITTI / DataFrame / ROS1-bag / result-zip cases over hard scalar classes "
+                   "lengths in both orders incl. equal pose counts that differ only in minus signs; TUM/KITTI save A - load - save a different B to the same path - load sequences in one process) ; evo_traj bag <topics> [--ref] --save_as_bag end to end on input bags whose topics live in different frames: exported poses, stamps and per-topic frame id) + random TUM / KITTI / DataFrame / ROS1-bag / evo_traj-bag-export / result-zip cases over hard scalar classes "
                    "(17-digit, 1e-300..1e300, subnormals, special doubles, neighbours of short decimals and of powers of two, UTM "
                    "sizes) x {str path, pathlib.Path, open handle, in-memory handle}; every case: reader output == writer input "
                    "bit for bit; cases with <= %d poses also: written file == model writer, model reader(file) == evo reader; "
